@@ -110,9 +110,11 @@ PROPS.update({
         "ManyMatcher::find_matches as exact match sequences on those automata; every reported match is also judged by an independent occurrence oracle. "
         "Strings and matrices: c01_string / c01_matrix carry this down to the occurrence specification. Port graphs: c01_portgraph_run_sound (modelled host "
         "side, lab_ok with pairwise not-equal atoms) and c01_portgraph_embedding (pattern side modelled too: every reported match maps every pattern link "
-        "to a host link and distinct pattern nodes to distinct host nodes, given the per-pattern validation lines_cover evaluated on every pattern).",
+        "to a host link and distinct pattern nodes to distinct host nodes, given the per-pattern validation lines_cover evaluated on every pattern). "
+        "Harness table domain (multi-valued keys, shared prerequisites, exotic constraint trees): c01_table_run_sound, with lab_ok and the modelled "
+        "traversal evaluated on every dumped table automaton (commands tab-cert / tab-run).",
         "Coq proof (invariant of the FIFO traversal w.r.t. an inductive labelling) + verified certificate checker on the real automaton + differential correspondence + occurrence oracle",
-        ["c01", "pg01", "pgm"]),
+        ["c01", "pg01", "pgm", "tab03"]),
     "C02": aut_prop("translation_validation",
         "Strings and matrices: Theorems c02_string / c02_matrix - for every automaton that passes wf_check, cert_complete, keys_tight (and, matrices, "
         "keys non-negative), every host, every fuel and every Ok result of the modelled breadth-first traversal (scope-restricted bindings, "
@@ -137,7 +139,7 @@ PROPS.update({
         "Theorem c04_heuristic_independent_acceptance: two certified automata for the same constraint lists accept the same patterns under the same "
         "valuations; every heuristic answer sequence is enumerated while the number of builds stays <= 24 (quick) / 256 (thorough), random beyond; "
         "each automaton is certified and all match multisets are compared pairwise.",
-        "verified certificates on every automaton of every enumerated heuristic answer sequence + pairwise multiset comparison", ["c04", "pg04", "tab03"]),
+        "verified certificates on every automaton of every enumerated heuristic answer sequence + pairwise multiset comparison", ["c04", "pg04", "tab03", "pgm"]),
     "C06": aut_prop("translation_validation",
         "Theorem c06_pattern_independent_acceptance (certified automata for pattern lists sharing a constraint list accept it identically); each "
         "pattern compiled alone vs inside the set, a rotated set with renumbering, duplicates, n_patterns/get_pattern.",
